@@ -14,6 +14,11 @@ TEXT = {
             "re-iteration and operand/rank-list immutability; all pairs of leaf fibers over shape<=2 (quick) or <=3 "
             "(thorough) enumerated completely.",
             "Trusts the builders and the per-coordinate state model; shapes<=7, k<=4; U format only on owned fibers."),
+    "C07": ("Hypothesis PBT: traversal requests vs list model (presented / dense), payload identity, snapshot deltas",
+            "Generated fibers (leaf / 2-level, C / U format, active ranges, explicit defaults) with 1-5 traversal requests "
+            "each, covering all iterators, reference forms, dense co-iteration, project / prune and lazy re-iteration, "
+            "compared with a list model; tree snapshots before/after.",
+            "Trusts the builders; start_pos restricted to legal shortcuts; U format without custom active range; shapes<=8."),
     "C12": ("Hypothesis PBT: representation-fuzzed and single-leaf-edited tree pairs/triples vs dict content model",
             "Generated pairs/triples of trees derived from one content (equal by construction, or differing in one leaf) "
             "compared with an independent point->value model; no exhaustive claim.",
